@@ -192,7 +192,8 @@ ObserveRet(o, e) ==
      !.viol = @ \cup Flag("C19_ClosedOnError",
                           (Dialing(e.op) /\ e.err /\ o.conn # "none") => o.conn = "closed")
                 \cup Flag("C19_ClosedAfterDialAndSend",
-                          (e.op = "DialAndSend" /\ ~e.err) => (o.conn = "closed" /\ o.quitSent))
+                          \* (o.conn = "none": implicit TLS over the library's own dialer - the transport cannot be tapped)
+                          (e.op = "DialAndSend" /\ ~e.err) => (o.quitSent /\ (o.conn # "none" => o.conn = "closed")))
                 \cup Flag("C17_Bounded", Bounded(e.op) => e.elapsed = "within")
                 \cup Flag("C17_ErrorOnStall", o.stalled => e.err),
      !.stalled = FALSE]
@@ -297,6 +298,7 @@ Observe(o, e) ==
                                     !.viol = @ \cup Flag("C07_CertValidated", e.ok => o.cfg.hs = "ok")]
     [] e.ev = "setdl"  -> [o EXCEPT !.armed = e.armed]
     [] e.ev = "wfail"  -> [o EXCEPT !.srvGone = TRUE]      \* the transport broke under a client write
+    [] e.ev = "tlshello" -> o                              \* a cleartext server saw a TLS ClientHello: nothing in clear
     [] e.ev = "xclose" -> [o EXCEPT !.srvGone = TRUE]      \* another goroutine closed the client
     [] e.ev = "stall"  -> [o EXCEPT !.stalled = TRUE, !.srvGone = TRUE, !.pend = NoCmd]
     [] e.ev = "log"    -> [o EXCEPT !.viol = @
